@@ -778,6 +778,19 @@ def gen_wkdibe(rng, n, tier):
     for (kk, cp) in witness:
         fx = [(i, vals[i], False) for i, ch in enumerate(cp) if ch == "x"]
         ctw = S.encrypt(p0, fx); S.decrypt(ctw, kk); S.decryptm(ctw, m0)
+    # parents whose free slots are a PREFIX of the slot range, followed by a hidden slot that the step repeats (and fixed slots after
+    # it): the parent's free-slot cursor is exhausted exactly when the hidden entry is reached — nothing behind the parent's list may
+    # be read (stale entries there carry plausible indices; under the sanitizer the array ends there)
+    for k in range(0, l - 1):
+        ppat = "f" * k + "h" + "x" * (l - k - 1)
+        kpre = S.key("wk_keygen", p0, m0, pattern_attrs(ppat, vals)); keys[kpre] = ppat
+        for fixfree in ((), tuple(range(k))[:1]):
+            stp = sorted([(i, vals[i], False) for i in fixfree] + [(k, 0, True)] + [(i, vals[i], False) for i in range(k + 1, l)])
+            cp = "".join("x" if i in fixfree else ch for i, ch in enumerate(ppat))
+            for op in ("wk_qualify", "wk_ndqualify"):
+                kk = S.key(op, p0, kpre, stp, random=(op == "wk_qualify")); keys[kk] = cp
+                fx = [(i, vals[i], False) for i, ch in enumerate(cp) if ch == "x"]
+                ctw = S.encrypt(p0, fx); S.decrypt(ctw, kk); S.decryptm(ctw, m0)
     # encrypt / decrypt: matching, equal mod r, mismatching, master
     klist = list(keys.items()); rng.shuffle(klist)
     for (k, pat) in klist[: (8 if tier != "thorough" else 40)]:
@@ -844,6 +857,18 @@ def gen_wkdibe(rng, n, tier):
         # omit-all-unless-present on either list: the adjusted key must still equal qualifying the parent directly
         tc = pick(); S.adjustnd(kadj, k, ta, tc, to_omit=True)
         kfo = S.key("wk_ndqualify", p0, k, fa, omitAll=True, random=False); S.adjustnd(kfo, k, fa, ta, from_omit=True)
+    # the same slot with the SAME identifier in both lists of an adjustment, differing only in the omit-from-keys flag: hiding a slot
+    # that was fixed (its term must leave a0) and fixing a slot that was hidden (its term must enter a0)
+    for (k, pat) in parents[:3]:
+        free = [i for i, ch in enumerate(pat) if ch == "f"]
+        if not free: continue
+        base = [(i, vals[i], False) for i, ch in enumerate(pat) if ch == "x"]
+        i0 = free[0]; v0 = vals[i0] if vals[i0] % R != 0 else 5
+        shown = sorted(base + [(i0, v0, False)]); hidden_ = sorted(base + [(i0, v0, True)])
+        k_shown = S.key("wk_ndqualify", p0, k, shown, random=False); k_hidden = S.key("wk_ndqualify", p0, k, hidden_, random=False)
+        a1 = S.adjustnd(k_shown, k, shown, hidden_); a2 = S.adjustnd(k_hidden, k, hidden_, shown)
+        ct_set = S.encrypt(p0, shown); ct_unset = S.encrypt(p0, base)
+        S.decrypt(ct_set, a2); S.decrypt(ct_set, a1, "ne"); S.decrypt(ct_unset, a1); S.decrypt(ct_unset, a2, "ne")
     # resampling
     for (k, pat) in klist[:3]:
         fixed = [(i, vals[i], False) for i, ch in enumerate(pat) if ch == "x"]
